@@ -1,1 +1,10 @@
-fn main() { println!("hello"); }
+mod mon;
+mod model;
+mod rng;
+mod run;
+mod sim;
+
+fn main() {
+    let args: Vec<String> = std::env::args().collect();
+    std::process::exit(run::main(&args[1..]));
+}
